@@ -595,8 +595,8 @@ class Aggregation:
         self.bad(st)
 
 
-def aggregation():
-    mod = parse(SRC)
+def aggregation(mod=None):
+    mod = parse(SRC) if mod is None else mod
     numpy_names, _ = module_aliases(mod, SRC)
     fn = find_method(find_class(mod, CLS), "cost_volume_aggregation")
     if fn.decorator_list:
@@ -623,30 +623,115 @@ def aggregation():
 # computes_cross_supports
 # ------------------------------------------------------------------------------------------------
 # preparation statements, by their normalised text ({v} = the image variable, {s} = the loop variable over the shifts)
-PREP_LEFT = {
-    "copy": ["{v} = np.copy(img_left['im'].data)"],
-    "maskInvalid": ["if 'msk' in img_left.data_vars:\n    {v}[np.where(img_left['msk'].data != img_left.attrs['valid_pixels'])] = np.nan"],
-    "median3": ["{v} = filter_.median_filter({v})"],
-    "nanToInf": ["np.nan_to_num({v}, copy=False, nan=np.inf)"],
-}
-SHIFT_BLOCK = """if 'msk' in img_right.data_vars and {s} != 0:
-    shift_mask = np.zeros(img_right['msk'].data.shape)
-    shift_mask[np.where(img_right['msk'].data != img_right.attrs['valid_pixels'])] = np.nan
-    str_row, str_col = shift_mask.strides
-    shape_windows = (shift_mask.shape[0], shift_mask.shape[1] - 1, 2)
-    strides_windows = (str_row, str_col, str_col)
-    aggregation_window = np.lib.stride_tricks.as_strided(shift_mask, shape_windows, strides_windows, writeable=False)
-    shift_mask = np.sum(aggregation_window, 2)
-    {v} += shift_mask"""
-PREP_RIGHT = {
-    "copy": ["{v} = np.copy({i}['im'].data)"],
-    "maskInvalidPixel": ["if 'msk' in img_right.data_vars and {s} == 0:\n    {v}[np.where(img_right['msk'].data != img_right.attrs['valid_pixels'])] = np.nan"],
-    "maskInvalidShifted": [SHIFT_BLOCK],
-    "median3": ["{v} = filter_.median_filter({v})"],
-    "nanToInf": ["np.nan_to_num({v}, copy=False, nan=np.inf)"],
-}
-PINNED = ["subpix = cv.attrs['subpixel']", "offset = int(cv.attrs['offset_row_col'])", "img_right_shift = shift_right_img(img_right, subpix)",
-          "filter_ = AbstractFilter(cfg={'filter_method': 'median', 'filter_size': 3})"]
+# ---- preparation statements, read structurally ({v} = the image variable)
+A_M = ("__m", "m", INT)               # one cell of <dataset>["msk"].data
+A_VALID = ("__valid", "valid", INT)   # <dataset>.attrs["valid_pixels"]
+A_NODATA = ("__nodata", "nodata", INT)  # <dataset>.attrs["no_data_mask"]
+A_HASMSK = ("__hasmsk", "hasMsk", BOOL)  # "msk" in <dataset>.data_vars
+PINNED = ["subpix = cv.attrs['subpixel']", "offset = int(cv.attrs['offset_row_col'])", "img_right_shift = shift_right_img(img_right, subpix)"]
+
+
+def ds_table(ds, shift_var=None):
+    t = {f"{ds}['msk'].data": name("__m"), f"{ds}.attrs['valid_pixels']": name("__valid"), f"{ds}.attrs['no_data_mask']": name("__nodata"),
+         f"'msk' in {ds}.data_vars": name("__hasmsk")}
+    if shift_var:
+        t[shift_var] = name("__shift")
+    return t
+
+
+def mask_store(st, var):
+    """`var[np.where(T)] = np.nan` | `var[T] = np.nan`  ->  T (None when `st` is not such a store)"""
+    if isinstance(st, ast.Assign) and len(st.targets) == 1 and isinstance(st.targets[0], ast.Subscript) \
+            and u(st.targets[0].value) == var and u(st.value) == "np.nan":
+        sl = st.targets[0].slice
+        if isinstance(sl, ast.Call) and u(sl.func) == "np.where" and len(sl.args) == 1 and not sl.keywords:
+            return sl.args[0]
+        if isinstance(sl, (ast.Compare, ast.BoolOp, ast.UnaryOp)):
+            return sl
+    return None
+
+
+def read_filter(st):
+    """`filter_ = AbstractFilter(cfg={'filter_method': 'median', 'filter_size': K})` -> (name, K)"""
+    if isinstance(st, ast.Assign) and len(st.targets) == 1 and isinstance(st.targets[0], ast.Name) and isinstance(st.value, ast.Call) \
+            and u(st.value.func) == "AbstractFilter" and not st.value.args and [k.arg for k in st.value.keywords] == ["cfg"] \
+            and isinstance(st.value.keywords[0].value, ast.Dict):
+        d = st.value.keywords[0].value
+        keys = [u(k) for k in d.keys]
+        if sorted(keys) != ["'filter_method'", "'filter_size'"]:
+            raise Unsupported(f"{SRC}: computes_cross_supports: `{u(st)}`: unexpected configuration of the pre-filter")
+        cfg = dict(zip(keys, d.values))
+        if u(cfg["'filter_method'"]) != "'median'":
+            raise Unsupported(f"{SRC}: computes_cross_supports: the pre-filter is `{u(cfg[chr(39) + 'filter_method' + chr(39)])}`, not the median")
+        k = cfg["'filter_size'"]
+        if not (isinstance(k, ast.Constant) and isinstance(k.value, int) and not isinstance(k.value, bool)):
+            raise Unsupported(f"{SRC}: computes_cross_supports: the size of the pre-filter is not an integer literal")
+        return st.targets[0].id, k.value
+    return None
+
+
+def read_nan_to_num(st, var):
+    """`np.nan_to_num(var, copy=False, nan=np.inf)` -> (in place?, replacement) ; None when not a nan_to_num statement"""
+    if isinstance(st, ast.Expr) and isinstance(st.value, ast.Call) and u(st.value.func) == "np.nan_to_num":
+        c = st.value
+        if len(c.args) != 1 or u(c.args[0]) != var:
+            raise Unsupported(f"{SRC}: computes_cross_supports: `{u(st)}` is not applied to `{var}`")
+        kw = {k.arg: u(k.value) for k in c.keywords}
+        if set(kw) - {"copy", "nan"}:
+            raise Unsupported(f"{SRC}: computes_cross_supports: `{u(st)}`: keywords outside (copy, nan)")
+        inplace = kw.get("copy", "True") == "False"
+        rep = {"np.inf": "pinf", "-np.inf": "ninf", "np.nan": "nan"}.get(kw.get("nan", "0.0"))
+        if rep is None:
+            raise Unsupported(f"{SRC}: computes_cross_supports: `{u(st)}`: NaN is replaced by a finite number (not modelled)")
+        return inplace, rep
+    return None
+
+
+def read_shift_block(body, var, ds, test_atoms, table):
+    """the body of the sub-pixel mask block -> (test kernel node, window offsets [(dy, dx)], width delta)"""
+    w = "computes_cross_supports: shifted right mask"
+    if len(body) != 8:
+        raise Unsupported(f"{SRC}: {w}: {len(body)} statements, expected 8")
+    s0, s1, s2, s3, s4, s5, s6, s7 = body
+    if not (isinstance(s0, ast.Assign) and isinstance(s0.targets[0], ast.Name) and u(s0.value) == f"np.zeros({ds}['msk'].data.shape)"):
+        raise Unsupported(f"{SRC}: {w}: `{u(s0)}` is not a zero array of the shape of the mask")
+    sm = s0.targets[0].id
+    test = mask_store(s1, sm)
+    if test is None:
+        raise Unsupported(f"{SRC}: {w}: `{u(s1)}` does not store NaN at the invalid pixels")
+    if not (isinstance(s2, ast.Assign) and isinstance(s2.targets[0], ast.Tuple) and len(s2.targets[0].elts) == 2
+            and all(isinstance(e, ast.Name) for e in s2.targets[0].elts) and u(s2.value) == f"{sm}.strides"):
+        raise Unsupported(f"{SRC}: {w}: `{u(s2)}`")
+    srow, scol = [e.id for e in s2.targets[0].elts]
+    if not (isinstance(s3, ast.Assign) and isinstance(s3.targets[0], ast.Name) and isinstance(s3.value, ast.Tuple) and len(s3.value.elts) == 3):
+        raise Unsupported(f"{SRC}: {w}: `{u(s3)}`")
+    shp = s3.value.elts
+    K = shp[2].value if isinstance(shp[2], ast.Constant) and isinstance(shp[2].value, int) else None
+    if u(shp[0]) != f"{sm}.shape[0]" or K is None or K < 1:
+        raise Unsupported(f"{SRC}: {w}: window shape `{u(s3.value)}`")
+    if u(shp[1]) == f"{sm}.shape[1]":
+        c = 0
+    elif isinstance(shp[1], ast.BinOp) and isinstance(shp[1].op, ast.Sub) and u(shp[1].left) == f"{sm}.shape[1]" \
+            and isinstance(shp[1].right, ast.Constant) and isinstance(shp[1].right.value, int):
+        c = shp[1].right.value
+    else:
+        raise Unsupported(f"{SRC}: {w}: window shape `{u(s3.value)}`")
+    if not (isinstance(s4, ast.Assign) and isinstance(s4.targets[0], ast.Name) and isinstance(s4.value, ast.Tuple)
+            and [u(e) for e in s4.value.elts[:2]] == [srow, scol] and len(s4.value.elts) == 3 and u(s4.value.elts[2]) in (srow, scol)):
+        raise Unsupported(f"{SRC}: {w}: strides `{u(s4)}`")
+    along_col = u(s4.value.elts[2]) == scol
+    if (along_col and c != K - 1) or (not along_col):
+        # a window that leaves the array (as_strided does not check) or runs down the rows: not the model's two columns
+        if not along_col or c < K - 1:
+            raise Unsupported(f"{SRC}: {w}: the sliding window reads outside the mask or runs along the rows")
+    if u(s5.value if isinstance(s5, ast.Assign) else s5) != f"np.lib.stride_tricks.as_strided({sm}, {s3.targets[0].id}, {s4.targets[0].id}, writeable=False)" \
+            or not isinstance(s5.targets[0], ast.Name):
+        raise Unsupported(f"{SRC}: {w}: `{u(s5)}`")
+    if not (isinstance(s6, ast.Assign) and isinstance(s6.targets[0], ast.Name) and u(s6.value) == f"np.sum({s5.targets[0].id}, 2)"):
+        raise Unsupported(f"{SRC}: {w}: `{u(s6)}` is not the sum of the window")
+    if u(s7) != f"{var} += {s6.targets[0].id}":
+        raise Unsupported(f"{SRC}: {w}: `{u(s7)}` does not add the shifted mask to the image")
+    return subst(test, table), [(0, t) for t in range(K)], -c
 
 
 def strip_doc(body):
@@ -661,24 +746,59 @@ def cross_call(e, site):
     return e.args[0]
 
 
-def match_prep(st, table, fmt):
-    text = u(st)
-    for op, forms in table.items():
-        for f in forms:
-            if text == f.format(**fmt):
-                return op
-    return None
+def classify(st, var, side, ds, out, shift_var=None, img_var=None):
+    """one preparation statement of the image `var` -> its PrepOp; the meaning it carries (mask test and guard, window of the
+    shifted mask, size of the median, NaN replacement) is recorded in `out["meaning"]` / `out["kernels"]`"""
+    w = f"{SRC}: computes_cross_supports ({side} image)"
+    src_img = f"{ds}['im'].data" if side == "left" else f"{img_var}['im'].data"
+    if u(st) == f"{var} = np.copy({src_img})":
+        return "copy"
+    g_atoms = [A_HASMSK] + ([A_SHIFT] if side == "right" else [])
+    t_atoms = [A_M, A_VALID, A_NODATA]
+    if isinstance(st, ast.If) and not st.orelse:
+        table = ds_table(ds, shift_var)
+        guard = subst(st.test, table)
+        if len(st.body) == 1 and mask_store(st.body[0], var) is not None:
+            op = "maskInvalid" if side == "left" else "maskInvalidPixel"
+            test = subst(mask_store(st.body[0], var), table)
+            prefix = "left" if side == "left" else "right"
+        else:
+            op = "maskInvalidShifted"
+            if side == "left":
+                raise Unsupported(f"{w}: a sub-pixel mask block on the left image")
+            test, offsets, delta = read_shift_block(strip_doc(st.body), var, ds, t_atoms, table)
+            out["meaning"]["shiftMaskOffsets"] = offsets
+            out["meaning"]["shiftMaskWidthDelta"] = delta
+            prefix = "shift"
+        out["kernels"][f"{prefix}MaskGuard"] = scalar_kernel(guard, f"{prefix}MaskGuard", g_atoms, f"{side} image: guard of the mask statement")
+        out["kernels"][f"{prefix}MaskTest"] = scalar_kernel(test, f"{prefix}MaskTest", t_atoms, f"{side} image: which mask cells become NaN")
+        for nm in (f"{prefix}MaskGuard", f"{prefix}MaskTest"):
+            if out["kernels"][nm].ret_types != [BOOL]:
+                raise Unsupported(f"{w}: {nm} is not a boolean")
+        return op
+    if u(st) == f"{var} = {out['filter']}.median_filter({var})":
+        return "median3"
+    r = read_nan_to_num(st, var)
+    if r is not None:
+        inplace, rep = r
+        if not inplace:
+            raise Unsupported(f"{w}: `{u(st)}` works on a copy that is thrown away")
+        prev = out["meaning"].setdefault("nanReplacement", rep)
+        if prev != rep:
+            raise Unsupported(f"{w}: the two images replace NaN differently")
+        return "nanToInf"
+    raise Unsupported(f"{w}: statement `{u(st).splitlines()[0]}` is not recognised")
 
 
-def supports():
-    """-> {"prepLeft": [ops], "prepRight": [ops], "leftCrop": Crop, "rightCrop": Crop}"""
-    mod = parse(SRC)
+def supports(mod=None):
+    """-> {"prepLeft": [ops], "prepRight": [ops], "leftCrop": Crop, "rightCrop": Crop, "kernels": …, "meaning": …}"""
+    mod = parse(SRC) if mod is None else mod
     fn = find_method(find_class(mod, CLS), "computes_cross_supports")
     if fn.decorator_list or [x.arg for x in fn.args.args] != ["self", "img_left", "img_right", "cv"]:
         raise Unsupported(f"{SRC}: computes_cross_supports: unexpected signature")
     body = strip_doc(fn.body)
     table = {"offset": name("__offset"), "int(cv.attrs['offset_row_col'])": name("__offset")}
-    out = {"prepLeft": [], "prepRight": []}
+    out = {"prepLeft": [], "prepRight": [], "kernels": {}, "meaning": {}, "filter": None}
     pinned = set()
     lv = None
     i = 0
@@ -697,6 +817,10 @@ def supports():
         text = u(st)
         if text in PINNED:
             pinned.add(text)
+            continue
+        f = read_filter(st)
+        if f is not None:
+            out["filter"], out["meaning"]["prefilterSize"] = f
             continue
         if isinstance(st, ast.Assign) and u(st.value) == "[]" and isinstance(st.targets[0], ast.Name):
             right_list = st.targets[0].id
@@ -726,10 +850,7 @@ def supports():
                     continue
                 if rv is None and isinstance(s, ast.Assign) and isinstance(s.targets[0], ast.Name):
                     rv = s.targets[0].id
-                op = match_prep(s, PREP_RIGHT, {"v": rv, "s": sv, "i": iv})
-                if op is None:
-                    raise Unsupported(f"{SRC}: {where}: statement `{u(s).splitlines()[0]}` of the loop over the shifted right images is not recognised")
-                out["prepRight"].append(op)
+                out["prepRight"].append(classify(s, rv, "right", "img_right", out, shift_var=sv, img_var=iv))
             if "rightCrop" not in out:
                 raise Unsupported(f"{SRC}: {where}: no right cross support is computed in the loop")
             continue
@@ -746,15 +867,17 @@ def supports():
             continue
         if lv is None and isinstance(st, ast.Assign) and isinstance(st.targets[0], ast.Name):
             lv = st.targets[0].id
-        op = match_prep(st, PREP_LEFT, {"v": lv})
-        if op is None or "leftCrop" in out:
+        if "leftCrop" in out:
             raise Unsupported(f"{SRC}: {where}: statement `{text.splitlines()[0]}` is not recognised")
-        out["prepLeft"].append(op)
+        out["prepLeft"].append(classify(st, lv, "left", "img_left", out))
     missing = [p for p in PINNED if p not in pinned]
     if missing:
         raise Unsupported(f"{SRC}: {where}: `{missing[0]}` not found")
     if "leftCrop" not in out or "rightCrop" not in out:
         raise Unsupported(f"{SRC}: {where}: a cross support is missing")
+    for need in ("prefilterSize", "nanReplacement"):
+        if need not in out["meaning"]:
+            raise Unsupported(f"{SRC}: {where}: {need}: the statement that fixes it was not found")
     return out
 
 
@@ -877,6 +1000,22 @@ def fdivV : Val → Val → Val
   | .num a, .num b => if b = 0 then .nan else .num (a / b)
   | _, _ => .nan
 
+/-- a returned 3-D array: its cells and its shape -/
+structure Arr3 (α : Type) where
+  get : Int → Int → Int → α
+  n0 : Int
+  n1 : Int
+  n2 : Int
+
+/-- `for dsp in range(n)` with the whole state threaded: the body for 0, 1, …, n-1 in this order, stopping at the first
+    failure -/
+def forPlanes {σ : Type} (body : Int → σ → PyLoops.Res σ) : Nat → σ → PyLoops.Res σ
+  | 0, s => PyLoops.Res.ok s
+  | n + 1, s =>
+    match forPlanes body n s with
+    | PyLoops.Res.ok s' => body (n : Int) s'
+    | PyLoops.Res.outOfBounds => PyLoops.Res.outOfBounds
+
 /-- a preparation statement of the image handed to `cross_support` (pinned by its text in the translator) -/
 inductive PrepOp where
   | copy | maskInvalid | maskInvalidPixel | maskInvalidShifted | median3 | nanToInf
@@ -891,6 +1030,49 @@ def sliceBox (n0 n1 r0 r1 c0 c1 : Int) : Int × Int × Int × Int :=
   let ch := PyArrays.sliceBound n1 c1
   (rl, cl, (if rh < rl then 0 else rh - rl), (if ch < cl then 0 else ch - cl))
 """
+
+
+WHOLE = '''/-! ## cost_volume_aggregation: the whole method on the whole volume
+
+The disparity loop is a REAL sequential loop here (`forPlanes`, the volume `agg` is the loop-carried state): that iteration
+`dsp` writes plane `dsp` only and reads plane `dsp` only is PROVED (`Properties/C11KernelsGlue.lean`: `aggLoopBody_frame`,
+`aggLoopBody_reads`), not assumed.  `np.swapaxes(a, 0, 2)[i, j, k] = a[k, j, i]`; `agg` has shape `(nb_disp, n_row_, n_col_)`
+(the reader checked the extents of `np.zeros` against `cv_data.shape`). -/
+
+/-- the body of the disparity loop: `cvd` = `cv_data` of shape `(cvd_n0, cvd_n1, _)`, `agg` of shape `(_, agg_n1, agg_n2)` -/
+def aggLoopBody (cvd : Int → Int → Int → Val) (cvd_n0 cvd_n1 : Int) (agg_n1 agg_n2 : Int)
+    (cross_left : Int → Int → Int → Int) (cl_n0 cl_n1 cl_n2 : Int)
+    (cross_right : Int → Int → Int → Int → Int) (cr_n0 cr_n1 cr_n2 : Int → Int) (disp : Int → Rat) (subpix : Int)
+    (dsp : Int) (agg : Int → Int → Int → Val) : PyLoops.Res (Int → Int → Int → Val) :=
+  match aggPlane (fun i j => cvd i j dsp) cvd_n0 cvd_n1 (fun i j => agg dsp i j) agg_n1 agg_n2
+      cross_left cl_n0 cl_n1 cl_n2 cross_right cr_n0 cr_n1 cr_n2 (disp dsp) subpix with
+  | PyLoops.Res.outOfBounds => PyLoops.Res.outOfBounds
+  | PyLoops.Res.ok r => PyLoops.Res.ok (fun k i j => if k = dsp then r.get i j else agg k i j)
+
+/-- `cost_volume_aggregation`: the cost volume `cv["cost_volume"].data` afterwards -/
+def costVolumeAggregation (cv : Int → Int → Int → Val) (cv_n0 cv_n1 cv_n2 : Int) (offset : Int)
+    (cross_left : Int → Int → Int → Int) (cl_n0 cl_n1 cl_n2 : Int)
+    (cross_right : Int → Int → Int → Int → Int) (cr_n0 cr_n1 cr_n2 : Int → Int) (disp : Int → Rat) (subpix : Int) :
+    PyLoops.Res (Arr3 Val) :=
+  let box := cvCropBox cv_n0 cv_n1 offset
+  let cvd : Int → Int → Int → Val := fun i j k => cv (box.1 + i) (box.2.1 + j) k
+  let n_col_ : Int := box.2.2.1
+  let n_row_ : Int := box.2.2.2
+  let nb_disp : Int := cv_n2
+  let agg0 : Int → Int → Int → Val := fun k i j => aggInit (cvd j i k)
+  match forPlanes (aggLoopBody cvd n_col_ n_row_ n_row_ n_col_ cross_left cl_n0 cl_n1 cl_n2 cross_right cr_n0 cr_n1 cr_n2 disp subpix)
+      nb_disp.toNat agg0 with
+  | PyLoops.Res.outOfBounds => PyLoops.Res.outOfBounds
+  | PyLoops.Res.ok agg =>
+    let res : Int → Int → Int → Val := fun i j k => agg k j i
+    let wb := writeBackBox cv_n0 cv_n1 offset
+    if writeBackTest offset then
+      if (decide (wb.2.2.1 = n_col_) && decide (wb.2.2.2 = n_row_)) = false then PyLoops.Res.outOfBounds else
+      PyLoops.Res.ok ⟨fun y x k =>
+        if decide (wb.1 ≤ y) && decide (y < wb.1 + wb.2.2.1) && decide (wb.2.1 ≤ x) && decide (x < wb.2.1 + wb.2.2.2)
+        then res (y - wb.1) (x - wb.2.1) k else cv y x k, cv_n0, cv_n1, cv_n2⟩
+    else PyLoops.Res.ok ⟨res, n_col_, n_row_, nb_disp⟩
+'''
 
 
 def render_scalar(k) -> list:
@@ -962,11 +1144,25 @@ def render(ag, sup) -> str:
     for ln in ag.plane.lines:
         lines.append("  " + ln)
     lines.append(f"  PyLoops.Res.ok ⟨{ag.aggp[0]}, {ag.aggp[1]}, {ag.aggp[2]}⟩\n")
+    lines.append(WHOLE)
     lines.append("/-! ## computes_cross_supports -/\n")
     lines.append("/-- the preparation statements of the left image, in the order of the source -/")
     lines.append("def prepLeft : List PrepOp := [" + ", ".join("." + o for o in sup["prepLeft"]) + "]")
     lines.append("/-- the preparation statements of every shifted right image, in the order of the source -/")
     lines.append("def prepRight : List PrepOp := [" + ", ".join("." + o for o in sup["prepRight"]) + "]\n")
+    lines.append("/-! what the preparation statements mean (read from their text, not pinned): guard and test of each mask store, the")
+    lines.append("    window of the `as_strided` view of the shifted mask (offsets `(row, column)` of its cells, change of width), the size of")
+    lines.append("    the median pre-filter, what `np.nan_to_num` (in place) writes for NaN -/\n")
+    for nm in ("leftMaskGuard", "leftMaskTest", "rightMaskGuard", "rightMaskTest", "shiftMaskGuard", "shiftMaskTest"):
+        if nm in sup["kernels"]:
+            lines += render_scalar(sup["kernels"][nm])
+            lines.append("")
+    mean = sup["meaning"]
+    if "shiftMaskOffsets" in mean:
+        lines.append("def shiftMaskOffsets : List (Nat × Nat) := [" + ", ".join(f"({a}, {b})" for a, b in mean["shiftMaskOffsets"]) + "]")
+        lines.append(f"def shiftMaskWidthDelta : Int := {mean['shiftMaskWidthDelta']}")
+    lines.append(f"def prefilterSize : Nat := {mean['prefilterSize']}")
+    lines.append(f"def nanReplacement : PyLoops.Fl := PyLoops.Fl.{mean['nanReplacement']}\n")
     ks = {}
     for site, atoms in (("leftCrop", [A_OFFSET]), ("rightCrop", [A_OFFSET, A_SHIFT])):
         kk = sup[site].kernels()
@@ -1001,4 +1197,4 @@ def generate():
     ag, sup = read_all()
     write_if_changed("KernelsCbcaGlue.lean", render(ag, sup))
     return {"T-cbca-glue": {"source": SRC, "digest": digest(SRC), "kernels": sorted(all_kernels(ag, sup)) + ["aggInit", "aggPlane"],
-                            "prepLeft": sup["prepLeft"], "prepRight": sup["prepRight"]}}
+                            "prepLeft": sup["prepLeft"], "prepRight": sup["prepRight"], "meaning": {k: (list(map(list, v)) if isinstance(v, list) else v) for k, v in sup["meaning"].items()}}}
